@@ -59,9 +59,26 @@ def run(ctx: Context) -> None:
         ok = ul is not None and bulk is not None and zero is not None and _line(ul) > _line(zero)
         ctx.check('R14.1', ok, "the fan path visits every remaining distinct length once (computed after the concave cells were removed)", td, ul or td.node,
                   construct='unique = numpy.unique(length)  # after zeroing')
-        skip = m.stmt('if $ul == 0:\n    continue', within=bulk) if bulk is not None else None
-        ctx.check('R14.1', skip is not None and bulk.body and bulk.body[0] is skip, "length 0 (no geometry, or handled by ear clipping) is skipped", td, skip or bulk or td.node,
-                  construct='if unique_length == 0: continue')
+        sel = m.stmt('$batch = numpy.flatnonzero($length == $ul)', within=bulk) if bulk is not None else None
+        from .common import path_conditions
+        skip_ok = False
+        conds = []
+        if sel is not None:
+            uln = m.name('ul')
+            for t, pol in path_conditions(td, sel):
+                if not any(x is t for x in ast.walk(bulk)):
+                    continue
+                conds.append((norm_text(t), pol))
+                if isinstance(t, ast.Compare) and len(t.ops) == 1 and isinstance(t.left, ast.Name) and t.left.id == uln and const_value(t.comparators[0], None) == 0 \
+                        and type(const_value(t.comparators[0], None)) is int:
+                    if (isinstance(t.ops[0], ast.Eq) and pol is False) or (isinstance(t.ops[0], ast.NotEq) and pol is True) or (isinstance(t.ops[0], ast.Gt) and pol is True):
+                        skip_ok = True
+                elif isinstance(t, ast.Name) and t.id == uln and pol is True:
+                    skip_ok = True
+        # no other condition may stand between a length and its batch
+        skip_ok = skip_ok and len(conds) == 1
+        ctx.check('R14.1', skip_ok, "length 0 (no geometry, or handled by ear clipping) is skipped, and nothing else is", td, sel or bulk or td.node,
+                  construct=f"batch selected under {conds}")
         sel = m.stmt('$batch = numpy.flatnonzero($length == $ul)', within=bulk) if bulk is not None else None
         ctx.check('R14.1', sel is not None, "a batch is all cells of exactly that length", td, sel or bulk or td.node,
                   construct='batch = numpy.flatnonzero(length == unique_length)')
@@ -200,7 +217,7 @@ def run(ctx: Context) -> None:
         ctx.check('R14.6', wl is not None, "ears are clipped until a triangle remains", tcp, wl or tcp.node, construct='while len(polygon.exterior.coords) > 4: ...')
         ok = wl is not None and mc.has(f"$ring = {poly}.exterior", '$coords = $ring.coords[:-1]', within=wl)
         inner = mc.stmt('for $i in range(len($coords) - 2):\n    ...\nelse:\n    ...', within=wl) if ok else None
-        ok = inner is not None and mc.has('$verts = [$coords[$i], $coords[$i + 2]]', '$diag = LineString($verts)', '$ends = MultiPoint($verts)', within=inner)
+        ok = inner is not None and mc.has('$verts = [$coords[$i], $coords[$i + 2]]', '$diag = shapely.geometry.LineString($verts)', '$ends = shapely.geometry.MultiPoint($verts)', within=inner)
         test = mc.stmt(f"if $diag.covered_by({poly}) and $ring.intersection($diag).equals($ends):\n    ...", within=inner) if ok else None
         ctx.check('R14.6', test is not None, "a diagonal (i, i+2) is an ear only if it lies in the polygon and touches the ring at its end points only", tcp, test or tcp.node,
                   construct='if diagonal.covered_by(polygon) and exterior.intersection(diagonal).equals(multipoint)')
